@@ -214,8 +214,16 @@ func init() {
 		return showJ(call(via, core.Unhex(args[1])), args[2:]...)
 	})
 	// jsonb: args = via (0 ParseJSONB, 1 DecodeType(3802)), blob, hints of the spec [, hints of the model]
+	// DecodeType's fallback (the input itself as a string, invalid UTF-8 replaced by '.') is rendered as the
+	// raw input, which is how the model renders it.
 	core.Register("jsonb", func(args []string) string {
-		return showJ(call(2+core.Atoi(args[0]), core.Unhex(args[1])), args[2:]...)
+		via := 2 + core.Atoi(args[0])
+		blob := core.Unhex(args[1])
+		v := call(via, blob)
+		if str, ok := v.(string); ok && via == 3 && str == strings.ToValidUTF8(string(blob), ".") {
+			v = string(blob)
+		}
+		return showJ(v, args[2:]...)
 	})
 	// malformed families: args = via, blob; "ok" unless the call panics (the harness catches it)
 	robust := func(args []string) string {
